@@ -189,6 +189,33 @@ impl<T> VecIter<T> {
                 && forall|j: int| 0 <= j < r.unwrap() ==> f.ensures((#[trigger] old(self).rem()[j],), false),
             r.is_none() ==> forall|j: int| 0 <= j < old(self).rem().len() ==> f.ensures((#[trigger] old(self).rem()[j],), false),
     { unimplemented!() }
+    /// `Iterator::all`: stops at the first element the closure rejects
+    #[verifier::external_body]
+    pub fn all<F: FnMut(T) -> bool>(&mut self, f: F) -> (r: bool)
+        requires forall|i: int| 0 <= i < old(self).rem().len() ==> f.requires((#[trigger] old(self).rem()[i],)),
+        ensures
+            r ==> forall|j: int| 0 <= j < old(self).rem().len() ==> f.ensures((#[trigger] old(self).rem()[j],), true),
+            !r ==> exists|j: int| 0 <= j < old(self).rem().len() && f.ensures((#[trigger] old(self).rem()[j],), false),
+    { unimplemented!() }
+    /// `Iterator::find` (the closure sees a reference): the first element it accepts
+    #[verifier::external_body]
+    pub fn find<F: FnMut(&T) -> bool>(&mut self, f: F) -> (r: Option<T>)
+        requires forall|i: int| 0 <= i < old(self).rem().len() ==> f.requires((&#[trigger] old(self).rem()[i],)),
+        ensures
+            r.is_some() ==> exists|k: int| 0 <= k < old(self).rem().len() && old(self).rem()[k] == r.unwrap()
+                && f.ensures((&old(self).rem()[k],), true)
+                && forall|j: int| 0 <= j < k ==> f.ensures((&#[trigger] old(self).rem()[j],), false),
+            r.is_none() ==> forall|j: int| 0 <= j < old(self).rem().len() ==> f.ensures((&#[trigger] old(self).rem()[j],), false),
+    { unimplemented!() }
+    /// `Iterator::count` / `last` / `nth` on the remaining items
+    #[verifier::external_body]
+    pub fn count(self) -> (r: usize) ensures r as int == self.rem().len() { unimplemented!() }
+    #[verifier::external_body]
+    pub fn last(self) -> (r: Option<T>) ensures r == (if self.rem().len() > 0 { Some(self.rem().last()) } else { None::<T> }) { unimplemented!() }
+    #[verifier::external_body]
+    pub fn nth(&mut self, n: usize) -> (r: Option<T>)
+        ensures r == (if (n as int) < old(self).rem().len() { Some(old(self).rem()[n as int]) } else { None::<T> }),
+    { unimplemented!() }
     #[verifier::external_body]
     pub fn any<F: FnMut(T) -> bool>(&mut self, f: F) -> (r: bool)
         requires forall|i: int| 0 <= i < old(self).rem().len() ==> f.requires((#[trigger] old(self).rem()[i],)),
